@@ -121,9 +121,13 @@ def reshape2 {β : Type} (a : Arr β) : Except IOErr (Arr β) :=
   | some rows => .ok (.d2 rows 2)
   | none => .error .valueError
 
+def pairOfRow : List Nat → Except IOErr (Nat × Nat)
+  | [a, b] => .ok (a, b)
+  | _ => .error .historyShape
+
 /-- the array as a list of index pairs, when its shape is `(r, 2)` -/
 def toPairs : Arr Nat → Except IOErr (List (Nat × Nat))
-  | .d2 rows 2 => mapE (fun r => match r with | [a, b] => .ok (a, b) | _ => .error .historyShape) rows
+  | .d2 rows 2 => mapE pairOfRow rows
   | _ => .error .historyShape
 
 /-- `int(x)` of a loaded field -/
@@ -213,6 +217,12 @@ def fmtRow {α : Type} (round5 : α → α) : List FmtK → List (Val α) → Ex
 
 variable {α : Type}
 
+/-- `G.nodes[i]` -/
+def lookupMin (net : Ktn (Pt α)) (i : Nat) : Except IOErr (Nat × Pt α) :=
+  match net.nodeData? i with
+  | some p => .ok (i, p)
+  | none => .error .keyError
+
 /-- `dump_network`: the dimension is read off minimum 0 (`KeyError` for an empty network);
     minima are written for `i in range(n_minima)` through `G.nodes[i]`; transition states in
     `G.edges()` order (the order of `net.edges`: the harness hands the model the order it
@@ -223,9 +233,7 @@ def dumpNetwork (round5 : α → α) (ds : DumpSpec) (net : Ktn (Pt α)) : Excep
   | none => .error .keyError
   | some p0 =>
     let ndim := p0.coords.length
-    match mapE (fun i => match net.nodeData? i with
-                         | some p => Except.ok (i, p) | none => .error IOErr.keyError)
-               (List.range net.nMin) with
+    match mapE (lookupMin net) (List.range net.nMin) with
     | .error e => .error e
     | .ok mins =>
       if mins.any (fun ip => ip.2.coords.length != ndim) then .error .valueError
@@ -271,42 +279,59 @@ def addEdges {δ : Type} : Ktn δ → List (Nat × Nat × δ) → Except IOErr (
     | .error e => .error e
     | .ok s' => addEdges s' rest
 
+/-- the history table: `np.loadtxt(..., ndmin=…, dtype=int)[.reshape(-1, 2)]` -/
+def loadPairs (ls : LoadSpec) (t : Table α) : Except IOErr (Arr Nat) :=
+  match mapE (mapE (fun (x : Fld α) => asInt x)) t with
+  | .error _ => .error .valueError
+  | .ok ti =>
+    match loadtxt ls.ndmin ti with
+    | .error e => .error e
+    | .ok a => if ls.reshape2 then reshape2 a else .ok a
+
+/-- row `i` of the node loop: `int(minima_data[i, 0])`, `minima_data[i, 1]`, `minima_coords[i, :]` -/
+def readNode (spec : ReadSpec) (md mc : Arr (Fld α)) (i : Nat) : Except IOErr (Nat × Pt α) := do
+  let l ← get2 md i spec.minLabelCol
+  let l ← asInt l
+  let e ← get2 md i spec.minEnergyCol
+  let e ← asReal e
+  let c ← getRow mc i
+  let c ← mapE asReal c
+  pure (l, (⟨c, e⟩ : Pt α))
+
+/-- row `i` of the edge loop -/
+def readEdge (spec : ReadSpec) (td tc : Arr (Fld α)) (i : Nat) : Except IOErr (Nat × Nat × Pt α) := do
+  let u ← get2 td i spec.tsUCol
+  let u ← asInt u
+  let v ← get2 td i spec.tsVCol
+  let v ← asInt v
+  let e ← get2 td i spec.tsEnergyCol
+  let e ← asReal e
+  let c ← getRow tc i
+  let c ← mapE asReal c
+  pure (u, v, (⟨c, e⟩ : Pt α))
+
+/-- the graph built from the rows read: counters assigned from the table sizes, nodes added
+    in row order, then edges -/
+def buildNetwork (n m : Nat) (nodes : List (Nat × Pt α)) (edges : List (Nat × Nat × Pt α)) :
+    Except IOErr (Ktn (Pt α)) :=
+  addEdges (nodes.foldl (fun s ld => addNode s ld.1 ld.2) { nMin := n, nTs := m }) edges
+
 /-- `read_network` into a fresh (empty) network.  Order of evaluation as in the code: the five
     `loadtxt` calls, `n_minima = np.size(minima_data, 0)`, the node loop, `n_ts = np.size(ts_data, 0)`,
-    the edge loop.  Finally the history must have shape `(r, 2)` to be a history at all. -/
+    the edge loop.  Finally the history must have shape `(r, 2)` to be a history at all.
+    (An exception aborts the whole call, so reading all rows before building the graph gives the
+    same outcome as the code's row-by-row loop.) -/
 def readNetwork (spec : ReadSpec) (f : Files α) : Except IOErr (Ktn (Pt α)) := do
   let md ← load spec.minData f.minData
   let mc ← load spec.minCoords f.minCoords
   let td ← load spec.tsData f.tsData
   let tc ← load spec.tsCoords f.tsCoords
-  let plF ← match mapE (mapE (fun (x : Fld α) => asInt x)) f.pairlist with
-            | .error _ => Except.error IOErr.valueError
-            | .ok t => Except.ok t
-  let pl ← match loadtxt spec.pairlist.ndmin plF with
-           | .error e => Except.error e
-           | .ok a => if spec.pairlist.reshape2 then reshape2 a else .ok a
+  let pl ← loadPairs spec.pairlist f.pairlist
   let n ← size0 md
-  let nodes ← mapE (fun i => do
-      let l ← get2 md i spec.minLabelCol
-      let l ← asInt l
-      let e ← get2 md i spec.minEnergyCol
-      let e ← asReal e
-      let c ← getRow mc i
-      let c ← mapE asReal c
-      pure (l, (⟨c, e⟩ : Pt α))) (List.range n)
+  let nodes ← mapE (readNode spec md mc) (List.range n)
   let m ← size0 td
-  let edges ← mapE (fun i => do
-      let u ← get2 td i spec.tsUCol
-      let u ← asInt u
-      let v ← get2 td i spec.tsVCol
-      let v ← asInt v
-      let e ← get2 td i spec.tsEnergyCol
-      let e ← asReal e
-      let c ← getRow tc i
-      let c ← mapE asReal c
-      pure (u, v, (⟨c, e⟩ : Pt α))) (List.range m)
-  let s0 : Ktn (Pt α) := nodes.foldl (fun s ld => addNode s ld.1 ld.2) { nMin := n, nTs := m }
-  let s1 ← addEdges s0 edges
+  let edges ← mapE (readEdge spec td tc) (List.range m)
+  let s1 ← buildNetwork n m nodes edges
   let h ← toPairs pl
   pure { s1 with pairlist := h }
 
